@@ -135,6 +135,10 @@ def c15_scenario(bins, idx, kill_point, flt, rng, cancel=False):
     """cancel: `app` exits non-zero 2.6 s (five flush periods) after its sibling `app2` has printed on both streams; `app2` is still running and is
     cancelled. What was stored of the cancelled task's output must not depend on the listener either."""
     targets = [{"path": "app"}, {"path": "app2"}, {"path": "lib", "uses": ["app", "app2"] if cancel else ["app"]}]
+    if idx % 2 == 0 and not cancel:
+        # long non-ASCII names, of even and of odd byte length (wherever a byte offset is taken from either end, one of
+        # the two has it inside a character)
+        targets += [{"path": "x" + "обработка" * 5}, {"path": "обработка" * 5}]
     fx = fixture.Fixture(bins, targets)
     tnames = [t["path"] for t in targets]
     try:
@@ -297,7 +301,7 @@ def c20_scenario(bins, idx, nt, flt, rng, heavy=False, stall=False):
         fx.git_init()
         f2 = dict(flt)
         if f2.get("targets"):
-            f2["targets"] = [tnames[i % nt] for i in f2["targets"]]
+            f2["targets"] = [tnames[i % nt] if isinstance(i, int) else i for i in f2["targets"]]
         lst = Listener(fx, f2)
         if not lst.ready:
             raise vlib.ToolError("listener did not come up")
@@ -459,7 +463,11 @@ def c20_two_runs_scenario(bins, idx, nt, rng):
 FILTERS = [{"stdout": True, "stderr": True}, {"stdout": True}, {"stderr": True},
            {"stdout": True, "stderr": True, "commands": ["build"], "targets": [0, 1]},
            {"stdout": True, "stderr": True, "targets": [0]}, {"stdout": True, "targets": [1, 2]},
-           {"stdout": True, "stderr": True, "commands": ["build"]}, {"stderr": True, "commands": ["test"], "targets": [0, 1]}]
+           {"stdout": True, "stderr": True, "commands": ["build"]}, {"stderr": True, "commands": ["test"], "targets": [0, 1]},
+           # filters at the edges: names that are not part of the run at all (nothing is admitted), and a filter line of
+           # several kilobytes (two real targets among sixty long names that do not exist)
+           {"stdout": True, "stderr": True, "commands": ["no-such-command"]}, {"stdout": True, "targets": ["no/such/target"]},
+           {"stdout": True, "stderr": True, "targets": [0, 1] + ["absent/%02d/%s" % (i, "n" * 90) for i in range(60)]}]
 
 
 def run(pid, tier):
@@ -486,6 +494,8 @@ def run(pid, tier):
                     jobs.append(("c15", n, kp, f))
                     n += 1
         jobs.append(("c15", n, "mid_output", {"stdout": True, "stderr": True, "targets": ["app2"]}))
+        jobs.append(("c15", n + 1, "mid_output", {"stdout": True, "stderr": True, "targets": ["app"] + ["absent/%02d/%s" % (i, "n" * 90) for i in range(60)]}))
+        jobs.append(("c15", n + 2, "after_connect", {"stdout": True, "stderr": True, "commands": ["no-such-command"]}))
         for k in range(1 if tier == "quick" else 2):
             jobs.append(("c15", 500 + k, "stalled_long", {"stdout": True, "stderr": True} if k == 0 else {"stdout": True, "targets": ["app2"]}))
         # a failing task cancels a sibling that is still running: unfiltered listener, a filter that excludes the
